@@ -88,12 +88,17 @@ Fixpoint run_hist (H P : rgraph) (steps : list hstep) : list tok :=
       (if swap then run_tr_set na ea P H [c] else run_tr_set na ea H P [c]) :: run_hist H P r
   | HMutateResult :: r => run_hist H P r
   end.
-(** monitor of the premises of the history theorems (lib/C06_HistSpec.v): every node dictionary of the two initial
-    objects, and of every node a script creates, has one entry per key (true of Python dicts by construction) *)
+(** monitor of the premises of the history theorems (lib/C06_HistSpec.v): every node and edge dictionary of the two initial
+    objects, and of every node / edge a script creates, has one entry per key (true of Python dicts by construction) *)
 Definition dict_okb (d : rattrs) : bool := nodupb (map fst d).
-Definition state_okb (g : rgraph) : bool := forallb (fun p => dict_okb (fst (snd p))) (gnodes g).
+Definition state_okb (g : rgraph) : bool :=
+  forallb (fun p => dict_okb (fst (snd p))) (gnodes g) && forallb (fun e => dict_okb (snd e)) (gedges g).
 Definition step_okb (s : hstep) : bool :=
-  match s with HEdit _ (EAddNode _ l) => dict_okb (fst l) | _ => true end.
+  match s with
+  | HEdit _ (EAddNode _ l) => dict_okb (fst l)
+  | HEdit _ (EAddEdge _ _ d) => dict_okb d
+  | _ => true
+  end.
 
 Definition run_history (H P : rgraph) (steps : list hstep) : tok :=
   L (tbool (state_okb H && state_okb P && forallb step_okb steps) :: run_hist H P steps).
